@@ -169,6 +169,9 @@ class Ctx:
         arm_all = os.environ.get("MELSTF_ARM_ALL") == "1"
         armed = load_armed()
         for r in self.records:
+            if r["verdict"] == "violation" and r.get("sig_changed") and r["key"] not in known_keys:
+                r["verdict"] = "undecided"
+                r["detail"] = "[the parameter list of %s is not the one this rule was written against: not decided] %s" % (", ".join(x.split("::")[-1] for x in r["sig_changed"]), r["detail"])
             if r["verdict"] == "violation" and not arm_all and r["key"] not in known_keys and not is_armed(armed, r["key"]):
                 r["verdict"] = "undecided"
                 r["detail"] = "[unarmed instance: no seeded variant confirms this key, reported as undecided] " + r["detail"]
@@ -257,6 +260,18 @@ class Ctx:
         return 0
 
 
+def _mark_sig_changed(ctx, n0):
+    """records produced by a rule function that read (by name) a function whose parameter list is not the one the rules were written
+    against: the rule's positional reading ($1, $2, ..) does not apply to it, so its failures are not decided"""
+    ch = dict(ctx.prog.sig_touched)
+    ctx.prog.sig_touched = {}
+    if not ch:
+        return
+    for rec in ctx.records[n0:]:
+        if not rec.get("sig_changed"):
+            rec["sig_changed"] = sorted(ch)
+
+
 def import_rules(ctx, fns, tag):
     """run rule functions that belong to another property inside this check, as necessary conditions of this property;
     their rule ids are prefixed with `tag` (e.g. X02.R3) so that ids and violation keys stay unique"""
@@ -265,6 +280,7 @@ def import_rules(ctx, fns, tag):
         sub = {}
         ctx.rules = sub
         n0 = len(ctx.records)
+        ctx.prog.sig_touched = {}
         try:
             try:
                 fn(ctx)
@@ -278,6 +294,7 @@ def import_rules(ctx, fns, tag):
                 rr.undecided("aborted", "rule %s aborted: %s" % (fn.__name__, tb.strip().splitlines()[-1][:200]))
         finally:
             ctx.rules = keep
+            _mark_sig_changed(ctx, n0)
         for rid, rule in sub.items():
             nid = "%s.%s" % (tag, rid)
             rule.rid = nid
@@ -299,8 +316,13 @@ def run_check(pid, tier, module):
     ctx.assumptions = list(getattr(module, "ASSUMPTIONS", []))
     internal = 0
     for fn in module.RULES:
+        n0 = len(ctx.records)
+        ctx.prog.sig_touched = {}
         try:
-            fn(ctx)
+            try:
+                fn(ctx)
+            finally:
+                _mark_sig_changed(ctx, n0)
         except AnchorMissing:
             pass
         except Exception as ex:
